@@ -30,17 +30,18 @@
          ports are accepted.  Nothing else is raised.  A refused value leaves the option as it was.
      U2  Once the servers were set up (setup_servers) or the proxy is running, and no update is in progress, there
          is exactly one instance per entry of the mode option if the server option is on, none if it is off; every
-         instance whose address nobody else holds is running (one failing start does not prevent the others).
+         instance is running unless a bind of its own start failed (one failing start does not prevent the others).
      U3  Instances of modes that stay in the option keep running undisturbed (same instance, sockets not closed);
          instances of removed modes are stopped: their sockets are closed when the update is done.
      U4  Ports are freed before new servers start: a start never fails because of a socket of an instance that the
          same or an earlier update removed.
-     U5  update() does not raise; it returns True only if every instance is running.
+     U5  update() does not raise; it returns True only if every instance it started is running.
      U6  Listeners of Servers.changed are notified after the last change of an update: what they saw last is the
          final list of instances and their running state.
 
    Events (see lib/vf/modenet.py).  Tokens: [t |-> "w"|"n"|"c"|"a", s |-> text, n |-> number].
-     [k |-> "world", good |-> <<words "//hostname" built by the harness>>, opt_host, opt_port (0 = None), root, nspecs]
+     [k |-> "world", good |-> <<words "//hostname" built by the harness>>, goods |-> <<the same with a trailing "/">>,
+      opt_host, opt_port (0 = None), root, nspecs]
      [k |-> "spec", id, toks, via, res |-> "ok"|"ValueError"|class, type, full, data, hashost, chost, cport (-1 = None),
       lh0, lh1 (listen_host() / listen_host("dflt.example") as tokens), lp0, lp1 (listen_port() / listen_port(4424)),
       tp, lhost, lport (with the world's options; -1 = None)]
@@ -90,7 +91,7 @@ Shape(toks) ==
 
 DocUrl(w, d) == /\ Len(d) \in {3, 5}
                 /\ d[1].t = "w" /\ d[1].s \in {"http", "https"}
-                /\ d[2].t = "c" /\ d[3].t = "w" /\ d[3].s \in ToSet(w.good)
+                /\ d[2].t = "c" /\ d[3].t = "w" /\ d[3].s \in ToSet(w.good) \cup (IF Len(d) = 3 THEN ToSet(w.goods) ELSE {})
                 /\ Len(d) = 5 => (d[4].t = "c" /\ d[5].t = "n" /\ d[5].n >= 1 /\ d[5].n <= 65535)
 DocData(w, name, d) == \/ name \in NoArg /\ d = <<>>
                        \/ name \in {"reverse", "upstream"} /\ DocUrl(w, d)
@@ -149,10 +150,10 @@ SpecWit(w, ev) ==
 
 \* ---------------------------------------------------------------------------------------------------------
 NoOp == [op |-> "none"]
-NoWorld == [good |-> <<>>, opt_host |-> "", opt_port |-> 0, root |-> FALSE]
+NoWorld == [good |-> <<>>, goods |-> <<>>, opt_host |-> "", opt_port |-> 0, root |-> FALSE]
 MonInit == [bad |-> <<>>, wit |-> {}, w |-> NoWorld, sp |-> <<>>, mode |-> <<>>, server |-> TRUE, psrun |-> FALSE,
             synced |-> FALSE, cur |-> NoOp, open |-> <<>>, failed |-> {}, listed |-> <<>>, lastchg |-> <<>>,
-            keep |-> {}, alones |-> {}, direct |-> [op |-> "none", err |-> ""], gspec |-> {}, ran |-> {}, freed |-> {}]
+            keep |-> {}, alones |-> {}, direct |-> [op |-> "none", err |-> ""], gspec |-> {}, ran |-> {}, freed |-> {}, fresh |-> {}]
 
 Protos(tp) == IF tp = "both" THEN {"tcp", "udp"} ELSE {tp}
 Eff(mode, server) == IF server THEN mode ELSE <<>>
@@ -210,7 +211,7 @@ FirstBad(seq) == IF \E i \in 1..Len(seq) : seq[i] # <<>>
 StateBad(m, ev) ==
   LET I == ev.insts
       eff == Eff(m.mode, m.server)
-      listedG == Gens(I) \cup Gens(ev.alone)
+      listedG == Gens(I) \cup Gens(ev.alone) \cup m.alones
       orphan == SelectSeq(m.open, LAMBDA s : s.gen \notin listedG)
       per == [i \in 1..Len(I) |-> InstBad(m, I[i], TRUE, ev.busy)]
       al == [i \in 1..Len(ev.alone) |-> InstBad(m, ev.alone[i], FALSE, ev.busy)]
@@ -257,13 +258,16 @@ StateWit(m, ev) ==
 
 MonStep(m, ev) ==
   IF m.bad # <<>> THEN m ELSE
-  CASE ev.k = "world" -> [m EXCEPT !.w = [good |-> ev.good, opt_host |-> ev.opt_host, opt_port |-> ev.opt_port, root |-> ev.root]]
+  CASE ev.k = "world" -> [m EXCEPT !.w = [good |-> ev.good, goods |-> ev.goods, opt_host |-> ev.opt_host, opt_port |-> ev.opt_port, root |-> ev.root]]
     [] ev.k = "spec" ->
          [m EXCEPT !.sp = Append(@, ev), !.wit = @ \cup SpecWit(m.w, ev),
                    !.bad = IF ev.id # Len(m.sp) + 1 THEN <<"X02.trace_malformed", "spec_id">> ELSE SpecBad(m.w, ev)]
     [] ev.k = "op" ->
          [m EXCEPT !.cur = ev, !.direct = [op |-> "none", err |-> ""],
                    !.failed = IF ev.op = "istart" THEN @ \ {ev.gen} ELSE @,
+                   \* the update may run inside the call (eager tasks): what must be kept is decided when the call begins
+                   !.keep = IF ev.op = "set_mode" THEN KeepFor(m, Eff(ev.cfg, m.server))
+                            ELSE IF ev.op = "set_server" THEN KeepFor(m, Eff(m.mode, ev.on)) ELSE @,
                    !.bad = IF m.cur.op # "none" THEN <<"X02.trace_malformed", "nested_op">> ELSE <<>>]
     [] ev.k = "ret" ->
          LET c == m.cur IN
@@ -272,15 +276,13 @@ MonStep(m, ev) ==
                     eff == Eff(c.cfg, m.server) IN
                 [m EXCEPT !.cur = NoOp, !.bad = SetModeBad(m, c.cfg, ev.err), !.wit = @ \cup SetModeWit(m, c.cfg, ev.err),
                           !.mode = IF ok THEN c.cfg ELSE @,
-                          !.synced = IF ok THEN m.psrun ELSE @,
-                          !.keep = IF ok THEN KeepFor(m, eff) ELSE @]
+                          !.synced = IF ok THEN m.psrun ELSE @]
            [] c.op = "set_server" ->
                 LET ok == ev.err = "" IN
                 [m EXCEPT !.cur = NoOp, !.bad = IF ~ok THEN <<"X02.configure_raised", ev.err>> ELSE <<>>,
                           !.wit = @ \cup {"set_server"},
                           !.server = IF ok THEN c.on ELSE @,
-                          !.synced = IF ok THEN m.psrun ELSE @,
-                          !.keep = IF ok THEN KeepFor(m, Eff(m.mode, c.on)) ELSE @]
+                          !.synced = IF ok THEN m.psrun ELSE @]
            [] c.op = "running" -> [m EXCEPT !.cur = NoOp, !.psrun = TRUE, !.wit = @ \cup {"running"},
                                             !.bad = IF ev.err # "" THEN <<"X02.running_raised", ev.err>> ELSE <<>>]
            [] c.op = "setup" -> [m EXCEPT !.cur = NoOp, !.synced = TRUE, !.wit = @ \cup {"setup"}]
@@ -303,12 +305,14 @@ MonStep(m, ev) ==
          [m EXCEPT !.open = SelectSeq(@, LAMBDA s : s.sid # ev.sid),
                    !.freed = @ \cup {<<s.tp, s.host, s.port, s.gen>> : s \in {x \in ToSet(m.open) : x.sid = ev.sid}},
                    !.bad = IF ev.gen \in m.keep /\ \E s \in ToSet(m.open) : s.sid = ev.sid THEN <<"X02.kept_instance_disturbed">> ELSE <<>>]
-    [] ev.k = "changed" -> [m EXCEPT !.lastchg = ev.insts, !.listed = ev.insts, !.gspec = Note(m, ev.insts), !.ran = Ran(m, ev.insts), !.wit = @ \cup {"changed"}]
+    [] ev.k = "changed" -> [m EXCEPT !.lastchg = ev.insts, !.listed = ev.insts, !.gspec = Note(m, ev.insts), !.ran = Ran(m, ev.insts),
+                                   !.fresh = @ \cup {g \in Gens(ev.insts) : \A p \in m.gspec : p[1] # g}, !.wit = @ \cup {"changed"}]
     [] ev.k = "upd" ->
-         [m EXCEPT !.listed = ev.insts, !.gspec = Note(m, ev.insts), !.ran = Ran(m, ev.insts),
+         [m EXCEPT !.listed = ev.insts, !.gspec = Note(m, ev.insts), !.ran = Ran(m, ev.insts), !.fresh = {},
                    !.wit = @ \cup {IF ev.res THEN "update_true" ELSE "update_false"},
                    !.bad = IF ev.exc # "" THEN <<"X02.update_raised", ev.exc>>
-                           ELSE IF ev.res /\ \E i \in 1..Len(ev.insts) : ~ev.insts[i].run THEN <<"X02.update_reported_success">>
+                           ELSE IF ev.res /\ \E i \in 1..Len(ev.insts) : ~ev.insts[i].run /\ ev.insts[i].gen \in m.fresh
+                                THEN <<"X02.update_reported_success">>
                            ELSE <<>>]
     [] ev.k = "state" ->
          LET b == StateBad(m, ev)
